@@ -318,6 +318,24 @@ Print Assumptions weld_manifold.
    copies differ by ~1e-15 cells against a bucket of 1e-4 (a crossing within 1e-15 of a bucket boundary is the only
    way to split a vertex; the harness counts such cases: 0 so far). *)
 
+(* The clauses of the property for the sign-grid model in one statement: for every sign grid whose below-cutoff points
+   lie strictly inside the box -- any extent, any position relative to the storage blocks, negative coordinates --
+   the triangles form a closed, consistently oriented surface (every directed edge exactly matched by one opposite
+   edge), no face is degenerate, the enclosed volume (midpoint vertices) is positive as soon as anything is below the
+   cutoff, and every vertex lies on a grid edge whose end points are on different sides of the cutoff. *)
+Theorem marching_surface_property : forall (s : pt -> bool) (lo hi : pt),
+  (forall p, s p = true -> strictly_inside lo hi p) ->
+  (forall e : dedge, countd e (dedges (surface s lo hi)) = countd (swap e) (dedges (surface s lo hi)) /\
+                     (countd e (dedges (surface s lo hi)) <= 1)%nat) /\
+  no_degenerateb (surface s lo hi) = true /\
+  ((exists p, s p = true) -> 0 < vol6 (surface s lo hi)) /\
+  (forall t g, In t (surface s lo hi) -> In g (tri_verts t) -> s (ge_lo g) <> s (ge_hi g)).
+Proof.
+  intros s lo hi H. split; [exact (grid_closed s lo hi H)|]. split; [exact (grid_no_degenerate s lo hi)|].
+  split; [exact (surface_volume_positive s lo hi H)|]. intros t g. exact (surface_vertex_crossed s lo hi t g).
+Qed.
+Print Assumptions marching_surface_property.
+
 (* non-vacuity: a single below-cutoff sample at the origin inside the box (-1,-1,-1)..(1,1,1) gives the
    octahedron of 8 triangles, closed and without degenerate faces *)
 Example one_point_octahedron :
